@@ -17,7 +17,9 @@
 //!  lit      array literals with holes / spreads / trailing commas, object literals with shorthand / spreads / keyword keys.
 //!  mem      member / index / call chains: reads on null / undefined, calls of non-functions, `this` of calls, calls on
 //!           results of calls, members of literals.
+//!  wxif     wx:if / wx:elif / wx:elif / wx:else chains with `??` / `?:` / `||` / `&&` / `!` roots in every branch position.
 //!  scope    wx:for item / index (default and renamed, shadowing a data field, nested), inline <wxs> module, template data.
+//!  c05      (C05) see below.   c12  (C12) see below.
 //!  parse    (C02) small directed groups, each emitted in normal and dev mode: > 2300 generated identifiers, 190000
 //!           sibling elements (normal mode only), odd tag / attribute / slot / module names, strings with quotes,
 //!           backslashes, control characters, U+2028/9, `</script>`, huge / non-finite numbers, sign-operator sequences,
@@ -46,12 +48,30 @@
 //! (`duplicated name` for `{ x: 1, x: 2 }`) are tolerated - the property does not say that supported expressions are free
 //! of lints.  Key ORDER of object values is compared (JavaScript defines it); no case needed this to be relaxed.
 //!
-//! KNOWN (genuine violations on the unmodified compiler; each excluded by exactly the stated guard): K1 array spread of a
-//! non-dense-Array, K2 hoisted sub-expressions vs. short-circuit / call order, K3 wx:if with a top-level `??`, K4 inline
-//! <wxs> path / module name pasted unescaped between quotes, K5 script body ending in a `//` comment.  See the KNOWN
-//! const (inputs as accepted by `run`).  VX_JSEVAL_KNOWN=1 switches the guards off and enumerates the KNOWN inputs and
-//! the `hoist` family, so that `search` reports the first of them.  VX_JSEVAL_ALL=1 prints every finding and the case
-//! counts per family to stderr (the Outcome still carries the first finding in enumeration order).
+//! KNOWN (genuine violations on the current compiler; each excluded by exactly the stated guard): K1 array spread of a
+//! non-dense-Array, K2 hoisted sub-expressions vs. short-circuit / call order.  (K3 wx:if with a top-level `??`, K4 inline
+//! <wxs> key pasted unescaped, K5 script body ending in a `//` comment, K6 named character references with a digit in
+//! the name were repaired in 442f07d / 1be3a93 / ddd5e3f / de39730; their classes are ordinary inputs now: families
+//! `wxif`, `wxs`, `scripts`, `c12` entity list.  K7 was withdrawn, see NARROWED below.)  See the KNOWN const (inputs as accepted by `run`; `run` needs no switch).
+//! VX_JSEVAL_KNOWN=1 switches the guards off and enumerates the KNOWN inputs and the `hoist` family, so that `search`
+//! reports the first of them.  VX_JSEVAL_ALL=1 prints every finding and the case counts per family to stderr (the Outcome
+//! still carries the first finding in enumeration order).
+//!
+//! C05 (family c05): the oracle is `shape_ref`, a reference resolver written from the property text - a stack of
+//! (name, value) entries pushed by wx:for (item, then index; the list expression is resolved before), by `slot:` refs
+//! (visible in the children; the value is the slot value of that KEY handed to the children of the nearest enclosing
+//! element, which the stub runtime makes the string "tag:key"), by <wxs> modules (file level); <template name> bodies
+//! start from the modules and the fields of the data they are given.  NARROWED: a slot alias is not probed in the own
+//! attributes of the element that carries it (the text says "of the element or an ancestor" without settling it; the
+//! compiler resolves those to data); `slot:` together with wx:for on one element is rejected by the parser and not used.
+//! C12 (family c12): the oracles are `ref_decode` (character references) and `ref_unescape` (string literal escapes).
+//! NARROWED: unquoted attribute values are limited to identifier characters (an unquoted value is not WXML; the parser's
+//! recovery cuts it at the first other character with Warn diagnostics only, e.g. `<v a=a$b>` delivers "a");
+//! a hexadecimal character reference spelled with an uppercase X (`&#X41;`) is not enumerated and the reference decoder
+//! does not read it: WXML's own scanner defines the reference syntax and reports this spelling as an illegal entity, so
+//! leaving it undecoded is not a finding (former K7);
+//! `\0` followed by a digit is left out (JavaScript reads a legacy octal escape there).  NOT COVERED for C12: tag /
+//! attribute / event / generic names, wx:key, template names, resolved paths and module names as run-time values.
 use crate::json::quote;
 use crate::Outcome;
 use glass_easel_template_compiler::TmplGroup;
@@ -278,7 +298,11 @@ fn is_number(e: &E) -> bool { matches!(e, E::Lit(t) if t.starts_with(|c: char| c
 fn refjs(e: &E, scope: &[(&str, &str)]) -> String {
     let r = |x: &E| refjs(x, scope);
     match e {
-        E::Id(n) => match scope.iter().rev().find(|(k, _)| k == n) { Some((_, v)) => v.to_string(), None => format!("$d[{}]", quote(n)) },
+        E::Id(n) => match scope.iter().rev().find(|(k, _)| k == n) {
+            Some((_, v)) => v.to_string(),
+            // ("*", obj): identifiers that no scope introduces are fields of `obj` (the data of a <template is> call)
+            None => match scope.iter().rev().find(|(k, _)| *k == "*") { Some((_, o)) => format!("$get({},{})", o, quote(n)), None => format!("$d[{}]", quote(n)) },
+        },
         E::Lit(t) => format!("({})", t),
         E::Un(op, x) => format!("({} {})", op, r(x)),
         E::Bin(op, l, rr) => format!("({} {} {})", r(l), op, r(rr)),
@@ -355,6 +379,8 @@ struct EvalCase {
     pool: Vec<J>,
     pick: Pick,
     flat: Option<String>,
+    /// Error / Fatal diagnostics are expected (ill-formed character references): do not treat them as a finding
+    any_diag: bool,
 }
 #[derive(Clone)]
 enum FileSrc { Text(String), Rep(String, usize) }
@@ -403,7 +429,7 @@ fn ev(family: &'static str, src: String, checks: Vec<(&str, String, bool)>, vars
     EvalCase {
         family, path: "a".into(), src, name: String::new(),
         checks: checks.into_iter().map(|(s, e, q)| (s.to_string(), e, q)).collect(),
-        guards: vec![], vars, pool, pick, flat: None,
+        guards: vec![], vars, pool, pick, flat: None, any_diag: false,
     }
 }
 
@@ -463,7 +489,7 @@ fn family_pos(out: &mut Vec<Case>) {
         let pick = if lcg == 1 { Pick::Lcg(600, 0x51ed + i as u32) } else { pick };
         let s = src(e, false);
         let r = refjs(e, &[]);
-        let wxif = !known_mode() && matches!(e, E::Bin("??", ..)); // K3
+        let wxif = false;
         let tpl = format!(
             "<div {} w=\"p{{{{ {} }}}}q\" {} {} {} {} {}>{{{{ {} }}}}</div>x{{{{ {} }}}}y{}",
             attr("v", &s), s, attr("data-k", &s), attr("mark:k", &s), attr("class", &s), attr("style", &s), attr("id", &s), s, s,
@@ -578,6 +604,34 @@ fn family_mem(out: &mut Vec<Case>) {
     let pool = pool_of(&[r#"{"$":"inst"}"#, r#"{"$":"fn","k":"ctor"}"#, OBJ, FN, "null"]);
     out.push(Case::Eval(ev("mem", format!("<div {}/>", attr("v", &src(&e, false))), vec![("r:v", refjs(&e, &[]), false)], vec!["o".into(), "f".into()], pool, Pick::All)));
 }
+/// wx:if / wx:elif chains whose conditions have `??` / `?:` roots in every branch position (the condition is emitted
+/// inside a `c=E1?1:E2?2:E3?3:0` chain, so its own precedence matters)
+fn family_wxif(out: &mut Vec<Case>) {
+    let p = || id("_");
+    let basic = vec![p(), bin("??", p(), p()), cond(p(), p(), p())];
+    let extra = vec![
+        bin("??", bin("??", p(), p()), p()), bin("??", p(), cond(p(), p(), p())), cond(p(), p(), bin("??", p(), p())), cond(bin("??", p(), p()), p(), p()),
+        bin("||", p(), p()), bin("&&", p(), p()), un("!", p()), cond(p(), cond(p(), p(), p()), p()), bin("??", p(), bin("||", p(), p())),
+    ];
+    let mut chains: Vec<[E; 3]> = vec![];
+    for a in &basic { for b in &basic { for c in &basic { chains.push([a.clone(), b.clone(), c.clone()]); } } }
+    for x in &extra { for pos in 0..3 { let mut ch = [p(), p(), p()]; ch[pos] = x.clone(); chains.push(ch); } }
+    let pool = pool_of(&["0", "1", "\"\"", "\"a\"", "null", r#"{"$":"undefined"}"#, "false"]);
+    for (i, ch) in chains.iter().enumerate() {
+        let mut ch = ch.clone();
+        let mut n = 0;
+        for e in ch.iter_mut() { relabel(e, &mut n); }
+        let mut vars = vec![];
+        for e in ch.iter() { vars_of(e, &mut vars); }
+        let r: Vec<String> = ch.iter().map(|e| refjs(e, &[])).collect();
+        let want = format!("[{} ? 'A' : {} ? 'B' : {} ? 'C' : 'D']", r[0], r[1], r[2]);
+        for tag in ["i", "block"] {
+            let tpl = format!("<{t} {}>A</{t}><{t} {}>B</{t}><{t} {}>C</{t}><{t} wx:else>D</{t}>", attr("wx:if", &src(&ch[0], false)), attr("wx:elif", &src(&ch[1], false)), attr("wx:elif", &src(&ch[2], false)), t = tag);
+            let pick = if vars.len() <= 4 { Pick::All } else { Pick::Lcg(600, 0x77 + i as u32) };
+            out.push(Case::Eval(ev("wxif", tpl, vec![("t", want.clone(), true)], vars.clone(), pool.clone(), pick)));
+        }
+    }
+}
 fn family_scope(out: &mut Vec<Case>) {
     let lists = pool_of(&[ARR, "[]", r#"[0,{"$":"-0"},"",null,{"$":"undefined"},{"x":1}]"#, "[[1,2],[3]]", "null", OBJ]);
     let two = |family, src: &str, checks: Vec<(&str, String, bool)>, vars: &[&str], pool: Vec<J>| {
@@ -644,6 +698,367 @@ fn family_hoist(out: &mut Vec<Case>) {
     }
 }
 
+
+// ------------------------------------------------------------------------------------------------ C05: lexical scopes
+/// A template shape.  `El`: an element or `<block>` with an optional wx:for (list, item name, index name; None = default
+/// names), `slot:` value refs (key, alias) and children.  `Probe` = `<p v="{{ FORM }}"/>`, `SlotProbe` =
+/// `<slot v="{{ FORM }}"/>`, `If` = `<block wx:if="{{ $t }}">A</block><block wx:else>B</block>` ($t is true),
+/// `Call` = `<template is="t" data="{{ k: e, .. }}"/>`.
+#[derive(Clone)]
+enum Nd {
+    El { tag: &'static str, f: Option<(E, Option<&'static str>, Option<&'static str>)>, slots: Vec<(&'static str, Option<&'static str>)>, own: bool, kids: Vec<Nd> },
+    Probe,
+    SlotProbe,
+    If(Vec<Nd>, Vec<Nd>),
+    Call(&'static str, Vec<(&'static str, E)>),
+}
+struct Shape {
+    label: &'static str,
+    modules: Vec<&'static str>,
+    templates: Vec<(&'static str, Vec<Nd>)>,
+    body: Vec<Nd>,
+    /// the identifiers placed into every probe (every one at every position of the form)
+    names: Vec<&'static str>,
+    /// data fields other than "data:<name>" for every name (tagged encodings)
+    data: Vec<(&'static str, &'static str)>,
+}
+const P: Nd = Nd::Probe;
+fn el(tag: &'static str, kids: Vec<Nd>) -> Nd { Nd::El { tag, f: None, slots: vec![], own: false, kids } }
+fn blk(kids: Vec<Nd>) -> Nd { el("block", kids) }
+fn wfor(n: Nd, list: E, item: Option<&'static str>, index: Option<&'static str>) -> Nd {
+    if let Nd::El { tag, slots, own, kids, .. } = n { Nd::El { tag, f: Some((list, item, index)), slots, own, kids } } else { n }
+}
+fn wslots(n: Nd, s: Vec<(&'static str, Option<&'static str>)>) -> Nd {
+    if let Nd::El { tag, f, own, kids, .. } = n { Nd::El { tag, f, slots: s, own, kids } } else { n }
+}
+fn wown(n: Nd) -> Nd { if let Nd::El { tag, f, slots, kids, .. } = n { Nd::El { tag, f, slots, own: true, kids } } else { n } }
+
+const FORMS: usize = 28;
+/// expression form number `i` with the identifiers x and y in its positions
+fn form(i: usize, x: &str, y: &str) -> E {
+    let (x, y, xs, ys) = (id(x), id(y), x, y);
+    let f = |a: Vec<E>| call(id("$f"), a);
+    match i {
+        0 => x,
+        1 => arr(vec![v(x), v(y)]),
+        2 => arr(vec![Item::Hole, v(x)]),
+        3 => arr(vec![Item::Hole, Item::Hole, v(x)]),
+        4 => arr(vec![v(x), Item::Hole, Item::Hole, v(y)]),
+        5 => arr(vec![sp(arr(vec![v(x)])), v(y)]),
+        6 => arr(vec![sp(arr(vec![v(y), v(x)]))]),
+        7 => obj(vec![named("k", x), named("j", y)]),
+        8 => obj(vec![short(xs), short(ys)]),
+        9 => obj(vec![Field::Spread(obj(vec![named("k", x)])), named("j", y)]),
+        10 => f(vec![x]),
+        11 => f(vec![y, x]),
+        12 => f(vec![f(vec![x]), y]),
+        13 => idx(id("$o"), x),
+        14 => arr(vec![v(mem(x, "v")), v(mem(y, "v"))]),
+        15 => cond(id("$t"), x, y),
+        16 => cond(id("$z"), y, x),
+        17 => cond(x, y, id("$z")),
+        18 => bin("??", id("$n"), x),
+        19 => bin("??", x, y),
+        20 => bin("+", bin("+", x, lit("'|'")), y),
+        21 => arr(vec![v(un("typeof", x)), v(un("!", y))]),
+        22 => arr(vec![v(arr(vec![v(x)])), v(arr(vec![v(arr(vec![v(y)]))]))]),
+        23 => obj(vec![named("k", arr(vec![Item::Hole, v(x)])), named("j", obj(vec![named("i", y)]))]),
+        24 => f(vec![arr(vec![v(x.clone()), Item::Hole, v(y)]), obj(vec![named("k", x)])]),
+        25 => bin("===", x, y),
+        26 => arr(vec![v(bin("&&", x.clone(), y.clone())), v(bin("||", x, y))]),
+        _ => arr(vec![v(idx(x, y))]),
+    }
+}
+fn probe_expr(i: usize, names: &[&str]) -> E {
+    arr((0..names.len()).map(|k| v(form(i, names[k], names[(k + 1) % names.len()]))).collect())
+}
+fn shape_src(nodes: &[Nd], pe: &str) -> String {
+    let mut s = String::new();
+    for n in nodes {
+        match n {
+            Nd::Probe => s += &format!("<p {}/>", attr("v", pe)),
+            Nd::SlotProbe => s += &format!("<slot {}/>", attr("v", pe)),
+            Nd::If(a, b) => s += &format!("<block wx:if=\"{{{{ $t }}}}\">{}</block><block wx:else>{}</block>", shape_src(a, pe), shape_src(b, pe)),
+            Nd::Call(name, data) => s += &format!("<template is=\"{}\" data=\"{{{{ {} }}}}\"/>", name, data.iter().map(|(k, e)| format!("{}: {}", k, src(e, false))).collect::<Vec<_>>().join(", ")),
+            Nd::El { tag, f, slots, own, kids } => {
+                s += &format!("<{}", tag);
+                if let Some((list, item, index)) = f {
+                    s += &format!(" {}", attr("wx:for", &src(list, false)));
+                    if let Some(x) = item { s += &format!(" wx:for-item=\"{}\"", x); }
+                    if let Some(x) = index { s += &format!(" wx:for-index=\"{}\"", x); }
+                }
+                for (k, a) in slots { match a { Some(a) => s += &format!(" slot:{}=\"{}\"", k, a), None => s += &format!(" slot:{}", k) } }
+                if *own { s += &format!(" {}", attr("v", pe)); }
+                s += &format!(">{}</{}>", shape_src(kids, pe), tag);
+            }
+        }
+    }
+    s
+}
+/// REFERENCE RESOLVER (from the property text): walks the shape with a stack of (name, JavaScript text of the value the
+/// name denotes); an identifier denotes the innermost entry of its name, else the data field (refjs).  Returns a
+/// JavaScript expression for the array of values the probes of kind `sel` deliver, in document order.
+fn shape_ref(sh: &Shape, nodes: &[Nd], sc: &Vec<(String, String)>, ptag: Option<&str>, ctr: &mut usize, sel: char, pe: &E) -> String {
+    let rj = |e: &E, sc: &Vec<(String, String)>| -> String { let v: Vec<(&str, &str)> = sc.iter().map(|(a, b)| (a.as_str(), b.as_str())).collect(); refjs(e, &v) };
+    let mut parts: Vec<String> = vec![];
+    for n in nodes {
+        match n {
+            Nd::Probe => if sel == 'p' { parts.push(format!("[{}]", rj(pe, sc))) },
+            Nd::SlotProbe => if sel == 's' { parts.push(format!("[{}]", rj(pe, sc))) },
+            Nd::If(a, _) => parts.push(shape_ref(sh, a, sc, ptag, ctr, sel, pe)),
+            Nd::Call(name, data) => {
+                // a <template name> body sees only the script modules; everything else is a field of the data it was given
+                let dataobj = format!("({{{}}})", data.iter().map(|(k, e)| format!("{}: {}", quote(k), rj(e, sc))).collect::<Vec<_>>().join(","));
+                let mut sc2: Vec<(String, String)> = vec![("*".into(), dataobj)];
+                for m in &sh.modules { sc2.push((m.to_string(), format!("({{\"v\":\"mod:{}\"}})", m))); }
+                let body = &sh.templates.iter().find(|(n, _)| n == name).expect("template").1;
+                parts.push(shape_ref(sh, body, &sc2, None, ctr, sel, pe));
+            }
+            Nd::El { tag, f, slots, own, kids } => {
+                let mut sc2 = sc.clone();
+                let mut wrap: Option<(String, usize)> = None;
+                if let Some((list, item, index)) = f {
+                    // the list expression does not see the variables it introduces; `index` is introduced after `item`
+                    let list_js = rj(list, sc);
+                    *ctr += 1;
+                    sc2.push((item.unwrap_or("item").to_string(), format!("$it{}", *ctr)));
+                    sc2.push((index.unwrap_or("index").to_string(), format!("$ix{}", *ctr)));
+                    wrap = Some((list_js, *ctr));
+                }
+                let mut inner = vec![];
+                // for variables are visible in the element's own attributes; slot values only in its children
+                if *own && sel == 'p' { inner.push(format!("[{}]", rj(pe, &sc2))); }
+                let mut seen: Vec<&str> = vec![];
+                for (k, a) in slots {
+                    if seen.contains(k) { continue; } // a repeated slot:key is rejected as a duplicated attribute
+                    seen.push(k);
+                    // the slot values of the slot this element sits in = what the enclosing element hands to its children
+                    sc2.push((a.unwrap_or(k).to_string(), match ptag { Some(t) => quote(&format!("{}:{}", t, k)), None => "undefined".into() }));
+                }
+                inner.push(shape_ref(sh, kids, &sc2, if *tag == "block" { ptag } else { Some(tag) }, ctr, sel, pe));
+                let body = format!("[].concat({})", inner.join(","));
+                parts.push(match wrap { Some((l, n)) => format!("[].concat(...$each({}, ($it{n},$ix{n}) => {}))", l, body, n = n), None => body });
+            }
+        }
+    }
+    format!("[].concat({})", parts.join(","))
+}
+fn shapes() -> Vec<Shape> {
+    let l0 = || id("l0");
+    let l1 = || id("l1");
+    let sh = |label, modules: Vec<&'static str>, templates, body, names, data| Shape { label, modules, templates, body, names, data };
+    vec![
+        sh("for-default", vec![], vec![], vec![wfor(blk(vec![P]), l0(), None, None), P], vec!["item", "index", "a"], vec![]),
+        sh("for-renamed", vec![], vec![], vec![wfor(blk(vec![P]), l0(), Some("a"), Some("b")), P], vec!["a", "b", "item", "index"], vec![]),
+        sh("for-on-element", vec![], vec![], vec![wown(wfor(el("e1", vec![P]), l0(), None, Some("i"))), wown(el("e2", vec![]))], vec!["item", "index", "i"], vec![]),
+        sh("for-nested-default", vec![], vec![], vec![wfor(blk(vec![wfor(blk(vec![P]), id("item"), None, None), P]), l1(), None, None), P], vec!["item", "index"], vec![]),
+        sh("for-item-named-like-outer-index", vec![], vec![], vec![wfor(blk(vec![wfor(blk(vec![P]), id("x"), Some("i"), Some("j")), P]), l1(), Some("x"), Some("i")), P], vec!["x", "i", "j", "item", "index"], vec![]),
+        sh("for-item-equals-index", vec![], vec![], vec![wfor(blk(vec![P]), l0(), Some("x"), Some("x")), P], vec!["x", "item"], vec![]),
+        sh("for-list-does-not-see-own-vars", vec![], vec![], vec![wfor(blk(vec![P, wfor(blk(vec![P]), id("a"), Some("a"), Some("item"))]), id("item"), Some("a"), None)], vec!["item", "a", "index"], vec![("item", "[[7,8],[9]]")]),
+        sh("for-4-deep", vec![], vec![], vec![wfor(el("e1", vec![wfor(blk(vec![wfor(el("e2", vec![wfor(blk(vec![P]), id("l0"), Some("index"), Some("item")), P]), id("l0"), None, None), P]), id("item"), Some("b"), None), P]), l1(), None, None), P], vec!["item", "index", "b"], vec![]),
+        sh("for-if-branches", vec![], vec![], vec![wfor(blk(vec![Nd::If(vec![P, wfor(blk(vec![P]), l0(), Some("q"), None)], vec![P]), P]), l0(), None, None), Nd::If(vec![P], vec![])], vec!["item", "index", "q"], vec![]),
+        sh("for-siblings-no-leak", vec![], vec![], vec![wfor(blk(vec![P]), l0(), Some("a"), Some("b")), P, wfor(blk(vec![P]), l0(), Some("c"), None), P, el("e1", vec![wfor(blk(vec![]), l0(), Some("z"), None), P])], vec!["a", "b", "c", "z", "item", "index"], vec![]),
+        sh("slot-basic", vec![], vec![], vec![el("e1", vec![wslots(el("e2", vec![P]), vec![("a", None)]), P]), P], vec!["a", "b"], vec![]),
+        sh("slot-top-level", vec![], vec![], vec![wslots(el("e1", vec![P]), vec![("a", None), ("b", Some("c"))]), P], vec!["a", "b", "c"], vec![]),
+        sh("slot-alias-swap", vec![], vec![], vec![el("e1", vec![wslots(el("e2", vec![P]), vec![("a", Some("b")), ("b", Some("a"))]), P])], vec!["a", "b"], vec![]),
+        sh("slot-on-block", vec![], vec![], vec![el("e1", vec![wslots(blk(vec![P, wslots(blk(vec![P]), vec![("a", Some("c"))])]), vec![("a", None), ("b", None)]), P])], vec!["a", "b", "c"], vec![]),
+        sh("slot-nested", vec![], vec![], vec![el("e1", vec![wslots(el("e2", vec![wslots(el("e3", vec![P, wslots(el("e4", vec![P]), vec![("c", Some("a"))])]), vec![("a", Some("b")), ("c", None)]), P]), vec![("a", None)]), P])], vec!["a", "b", "c"], vec![]),
+        sh("slot-alias-shadows-for", vec![], vec![], vec![el("e1", vec![wfor(blk(vec![wslots(el("e2", vec![P]), vec![("k", Some("item")), ("a", Some("index"))]), P]), l0(), None, None)])], vec!["item", "index", "k", "a"], vec![]),
+        sh("for-shadows-slot", vec![], vec![], vec![el("e1", vec![wslots(el("e2", vec![wfor(blk(vec![P]), l0(), Some("a"), Some("b")), P]), vec![("a", None), ("b", Some("c"))])])], vec!["a", "b", "c"], vec![]),
+        sh("slot-duplicate-key", vec![], vec![], vec![el("e1", vec![wslots(el("e2", vec![P]), vec![("a", Some("x")), ("a", Some("y"))]), P])], vec!["a", "x", "y"], vec![]),
+        sh("slot-alias-is-other-key-then-for", vec![], vec![], vec![el("e1", vec![wslots(el("e2", vec![wfor(blk(vec![P]), l0(), None, None), P]), vec![("a", Some("b")), ("b", Some("a"))])])], vec!["a", "b", "item", "index"], vec![]),
+        sh("slot-alias-is-sibling-key", vec![], vec![], vec![el("e1", vec![wslots(el("e2", vec![P]), vec![("a", Some("x"))]), wslots(el("e3", vec![P, wfor(blk(vec![P]), l0(), None, None)]), vec![("b", Some("a"))]), P])], vec!["a", "b", "x", "item"], vec![]),
+        sh("slot-siblings-no-leak", vec![], vec![], vec![el("e1", vec![wslots(el("e2", vec![P]), vec![("a", None)]), el("e3", vec![P]), wslots(blk(vec![]), vec![("b", None)]), P]), wfor(blk(vec![P]), l0(), None, None), P], vec!["a", "b", "item", "index"], vec![]),
+        sh("slot-then-for-after-parent", vec![], vec![], vec![el("e1", vec![el("e2", vec![wslots(el("e3", vec![]), vec![("a", None), ("c", Some("d"))])])]), wfor(blk(vec![P, wfor(blk(vec![P]), l0(), Some("q"), None)]), l0(), None, None), P], vec!["a", "d", "item", "index", "q"], vec![]),
+        sh("slot-under-if-and-for", vec![], vec![], vec![el("e1", vec![Nd::If(vec![wslots(el("e2", vec![P]), vec![("a", None)])], vec![]), wfor(blk(vec![wslots(el("e3", vec![P]), vec![("item", Some("index")), ("a", None)])]), l0(), None, None), P])], vec!["item", "index", "a"], vec![]),
+        sh("slot-probe-in-for", vec![], vec![], vec![wfor(blk(vec![Nd::SlotProbe, el("e1", vec![wslots(blk(vec![Nd::SlotProbe]), vec![("a", None)])])]), l0(), None, None), Nd::SlotProbe], vec!["item", "index", "a"], vec![]),
+        sh("modules", vec!["m", "item", "a"], vec![], vec![P, wfor(blk(vec![P]), l0(), None, None), wfor(blk(vec![P]), l0(), Some("m"), Some("a")), el("e1", vec![wslots(el("e2", vec![P]), vec![("a", None), ("k", Some("m"))])]), P], vec!["m", "item", "index", "a"], vec![]),
+        sh("template-body-sees-only-modules", vec!["m"], vec![("t", vec![P, wfor(blk(vec![P]), id("q"), None, None)])],
+            vec![wfor(blk(vec![el("e1", vec![wslots(el("e2", vec![Nd::Call("t", vec![("a", id("index")), ("q", arr(vec![v(id("b"))]))]), P]), vec![("b", None)])])]), l0(), Some("a"), None), Nd::Call("t", vec![("m", lit("1")), ("item", lit("2"))]), P],
+            vec!["a", "b", "q", "m", "item", "index"], vec![]),
+        sh("template-body-with-own-scopes", vec!["m"], vec![("t", vec![wfor(blk(vec![P]), l0(), Some("a"), None), P]), ("u", vec![Nd::Call("t", vec![("l0", id("x")), ("a", id("a"))]), P])],
+            vec![wfor(blk(vec![Nd::Call("u", vec![("x", arr(vec![v(id("item")), v(id("a"))])), ("a", id("index"))])]), l0(), None, None)], vec!["a", "x", "item", "index", "l0"], vec![]),
+    ]
+}
+fn family_c05(out: &mut Vec<Case>) {
+    for sh in shapes() {
+        for fi in 0..FORMS {
+            let pe = probe_expr(fi, &sh.names);
+            let pes = src(&pe, false);
+            let mut tpl = String::new();
+            for m in &sh.modules { tpl += &format!("<wxs module=\"{m}\">exports.v = \"mod:{m}\"</wxs>", m = m); }
+            for (n, body) in &sh.templates { tpl += &format!("<template name=\"{}\">{}</template>", n, shape_src(body, &pes)); }
+            tpl += &shape_src(&sh.body, &pes);
+            let mut sc: Vec<(String, String)> = vec![];
+            for m in &sh.modules { sc.push((m.to_string(), format!("({{\"v\":\"mod:{}\"}})", m))); }
+            let rp = shape_ref(&sh, &sh.body, &sc, None, &mut 0, 'p', &pe);
+            let rs = shape_ref(&sh, &sh.body, &sc, None, &mut 0, 's', &pe);
+            // data: every name under test (and every module name) is ALSO a data field with a recognisable value
+            let mut vars: Vec<String> = vec![];
+            let mut pool: Vec<J> = vec![];
+            let mut put = |k: &str, enc: J| { if !vars.iter().any(|x| x == k) { vars.push(k.to_string()); pool.push(enc); } };
+            for (k, enc) in &sh.data { put(k, parse_json(enc).expect("shape data")); }
+            for k in sh.names.iter().chain(sh.modules.iter()) { put(k, js(&format!("data:{}", k))); }
+            for (k, enc) in [("l0", "[10,20]"), ("l1", "[[1,2],[3]]"), ("$t", "true"), ("$z", "0"), ("$n", "null"), ("$f", FN), ("$o", r#"{"$":"echo"}"#)] { put(k, parse_json(enc).unwrap()); }
+            let n = vars.len();
+            let mut c = ev("c05", tpl, vec![("r:v", rp, true), ("l:v", rs, true)], vars, pool, Pick::Tuples(vec![(0..n).collect()]));
+            c.path = format!("c05/{}/{}", sh.label, fi);
+            out.push(Case::Eval(c));
+        }
+    }
+}
+
+
+// ------------------------------------------------------------------------------------------------ C12: static strings
+/// JavaScript string literal of `s`, written independently of the compiler's escaping: everything but ASCII letters and
+/// digits is a \uXXXX escape of its UTF-16 units
+fn jsstr(s: &str) -> String {
+    let mut o = String::from("\"");
+    for u in s.encode_utf16() { if u < 128 && (u as u8 as char).is_ascii_alphanumeric() { o.push(u as u8 as char) } else { o += &format!("\\u{:04x}", u) } }
+    o + "\""
+}
+const ENTITY_TABLE: &[(&str, &str)] = &[
+    ("amp", "&"), ("lt", "<"), ("gt", ">"), ("quot", "\""), ("apos", "'"), ("nbsp", "\u{a0}"), ("copy", "\u{a9}"), ("reg", "\u{ae}"), ("yen", "\u{a5}"), ("euro", "\u{20ac}"),
+    ("hellip", "\u{2026}"), ("mdash", "\u{2014}"), ("times", "\u{d7}"), ("alpha", "\u{3b1}"), ("Omega", "\u{3a9}"), ("AMP", "&"), ("LT", "<"), ("frac12", "\u{bd}"), ("sup2", "\u{b2}"),
+    ("frac14", "\u{bc}"), ("frac34", "\u{be}"), ("sup1", "\u{b9}"), ("sup3", "\u{b3}"), ("there4", "\u{2234}"), ("blk12", "\u{2592}"), ("blk14", "\u{2591}"), ("frac78", "\u{215e}"),
+];
+/// REFERENCE DECODER for static text and static attribute values (from the property text: character references denote
+/// their code point, named references their HTML character; anything else stands for itself)
+fn ref_decode(s: &str) -> String {
+    let cs: Vec<char> = s.chars().collect();
+    let mut o = String::new();
+    let mut i = 0;
+    while i < cs.len() {
+        if cs[i] == '&' {
+            if let Some(len) = cs[i + 1..].iter().take(40).position(|c| *c == ';') {
+                let body: String = cs[i + 1..i + 1 + len].iter().collect();
+                // `&#x..;` with a lowercase x: the reference syntax is the one WXML's scanner defines (see NARROWED, `&#X41;`)
+                let dec = if let Some(h) = body.strip_prefix("#x") {
+                    if !h.is_empty() && h.chars().all(|c| c.is_ascii_hexdigit()) { u32::from_str_radix(h, 16).ok().and_then(char::from_u32).map(|c| c.to_string()) } else { None }
+                } else if let Some(d) = body.strip_prefix('#') {
+                    if !d.is_empty() && d.chars().all(|c| c.is_ascii_digit()) { d.parse::<u32>().ok().and_then(char::from_u32).map(|c| c.to_string()) } else { None }
+                } else {
+                    ENTITY_TABLE.iter().find(|(n, _)| *n == body).map(|(_, c)| c.to_string())
+                };
+                if let Some(d) = dec { o += &d; i += len + 2; continue; }
+            }
+        }
+        o.push(cs[i]);
+        i += 1;
+    }
+    o
+}
+/// REFERENCE DECODER for the body of a string literal inside `{{ }}`: \n \r \t \b \f \v \0 \xHH \uHHHH, any other
+/// escaped character stands for itself
+fn ref_unescape(s: &str) -> String {
+    let cs: Vec<char> = s.chars().collect();
+    let mut o = String::new();
+    let mut i = 0;
+    while i < cs.len() {
+        if cs[i] == '\\' && i + 1 < cs.len() {
+            let c = cs[i + 1];
+            i += 2;
+            match c {
+                'n' => o.push('\n'), 'r' => o.push('\r'), 't' => o.push('\t'), 'b' => o.push('\u{8}'), 'f' => o.push('\u{c}'), 'v' => o.push('\u{b}'), '0' => o.push('\0'),
+                'x' | 'u' => {
+                    let n = if c == 'x' { 2 } else { 4 };
+                    let h: String = cs[i..(i + n).min(cs.len())].iter().collect();
+                    o.push(u32::from_str_radix(&h, 16).ok().and_then(char::from_u32).expect("generator: well-formed escape"));
+                    i += n;
+                }
+                x => o.push(x),
+            }
+        } else { o.push(cs[i]); i += 1; }
+    }
+    o
+}
+/// 0 = raw where the context allows it, 1 = decimal character references / \xHH, 2 = hexadecimal references / \uHHHH
+fn enc_markup(s: &str, mode: u8, quote_ch: char) -> String {
+    let mut o = String::new();
+    for c in s.chars() {
+        let special = matches!(c, '&' | '<' | '>') || c == quote_ch || (c == '{') || !(c.is_ascii_alphanumeric() || c == '[' || c == ']') && mode > 0;
+        if !special { o.push(c); continue; }
+        match (mode, c) {
+            (0, '&') => o += "&amp;", (0, '<') => o += "&lt;", (0, '>') => o += "&gt;", (0, '"') => o += "&quot;", (0, '\'') => o += "&apos;", (0, '{') => o += "&#123;",
+            (1, _) => o += &format!("&#{};", c as u32),
+            (_, _) => o += &format!("&#x{:X};", c as u32),
+        }
+    }
+    o
+}
+fn enc_jslit(s: &str, mode: u8) -> String {
+    let mut o = String::from("'");
+    for c in s.chars() {
+        let code = c as u32;
+        let must = matches!(c, '\'' | '"' | '\\' | '\n' | '\r' | '<' | '&' | '{' | '}') ;
+        if (mode == 0 && !must) || code > 0xffff || c.is_ascii_alphanumeric() || c == '[' || c == ']' { o.push(c); }
+        else if mode == 0 { match c { '\'' => o += "\\'", '\\' => o += "\\\\", '\n' => o += "\\n", '\r' => o += "\\r", _ => o += &format!("\\x{:02x}", code) } }
+        else if mode == 1 && code < 0x100 { o += &format!("\\x{:02X}", code) }
+        else { o += &format!("\\u{:04x}", code) }
+    }
+    o + "'"
+}
+const C12_CHARS: &[char] = &[
+    '\u{0}', '\u{1}', '\u{2}', '\u{3}', '\u{4}', '\u{5}', '\u{6}', '\u{7}', '\u{8}', '\u{9}', '\u{a}', '\u{b}', '\u{c}', '\u{d}', '\u{e}', '\u{f}', '\u{10}', '\u{11}', '\u{12}', '\u{13}', '\u{14}', '\u{15}',
+    '\u{16}', '\u{17}', '\u{18}', '\u{19}', '\u{1a}', '\u{1b}', '\u{1c}', '\u{1d}', '\u{1e}', '\u{1f}', '\u{7f}', '\u{80}', '\u{85}', '\u{9f}', '\u{a0}', '\u{ad}', '\u{2028}', '\u{2029}', '\u{feff}', '\u{fffd}',
+    '\u{ffff}', '\u{10000}', '\u{1F600}', '\u{10ffff}', '"', '\'', '\\', '<', '>', '&', '{', '}', '`', '$', '/', ' ', 'a',
+];
+const C12_SUCC: &[&str] = &["", "0", "8", "a", "f", "\"", "'", "\\", "{", "}", "x", "u", "n", "</script>", ";"];
+fn c12_case(label: String, tpl: String, checks: Vec<(&str, String, bool)>) -> Case {
+    let mut c = ev("c12", tpl, checks, vec!["n".into()], pool_of(&[r#"{"$":"undefined"}"#]), Pick::All);
+    c.path = label;
+    c.any_diag = true;
+    Case::Eval(c)
+}
+fn family_c12(out: &mut Vec<Case>) {
+    // (A) every critical character x every critical successor, in every static position, raw / decimal / hex spelling
+    for ch in C12_CHARS {
+        for su in C12_SUCC {
+            if *ch == '{' && su.starts_with('{') { continue; } // `{{` opens a binding
+            let s = format!("[{}{}]", ch, su);
+            let w = jsstr(&s);
+            for mode in 0..3u8 {
+                let (dq, sq, tx, jl) = (enc_markup(&s, mode, '"'), enc_markup(&s, mode, '\''), enc_markup(&s, mode, '\0'), enc_jslit(&s, mode));
+                let tpl = format!(
+                    "<v a=\"{dq}\" b='{sq}' data-k=\"{dq}\" mark:m=\"{dq}\" class=\"{dq}\" id=\"{dq}\" u=\"x{{{{ n }}}}{dq}\">{tx}</v><w v=\"{{{{ {jl} }}}}\">{{{{ {jl} }}}}</w><y>{{{{ n }}}}{tx}</y><z>{{{{ {jl} }}}}{tx}</z><slot name=\"{dq}\"/>",
+                    dq = dq, sq = sq, tx = tx, jl = jl
+                );
+                let checks = vec![
+                    ("r:a", w.clone(), false), ("r:b", w.clone(), false), ("d:k", w.clone(), false), ("m:m", w.clone(), false), ("c", w.clone(), false), ("i", w.clone(), false),
+                    ("r:u", format!("\"x\" + {}", w), false), ("r:v", w.clone(), false), ("t", format!("[{w}, {w}, {w}, {w} + {w}]", w = w), true), ("sn", w.clone(), false),
+                ];
+                out.push(c12_case(format!("c12/char/{:x}/{}", *ch as u32, mode), tpl, checks));
+            }
+        }
+    }
+    // (B) character reference forms
+    for e in ["&amp;", "&lt;", "&gt;", "&quot;", "&apos;", "&nbsp;", "&copy;", "&reg;", "&yen;", "&euro;", "&hellip;", "&mdash;", "&times;", "&alpha;", "&Omega;", "&AMP;", "&LT;", "&#65;", "&#065;", "&#0000065;",
+        "&#9;", "&#0;", "&#1;", "&#7;", "&#10;", "&#13;", "&#32;", "&#34;", "&#38;", "&#39;", "&#60;", "&#123;", "&#127;", "&#128;", "&#160;", "&#8232;", "&#65279;", "&#65535;", "&#65536;", "&#128512;", "&#1114111;",
+        "&#1114112;", "&#55296;", "&#57343;", "&#4294967296;", "&#99999999999999999999;", "&#x41;", "&#x041;", "&#xa;", "&#xA;", "&#x0;", "&#x7f;", "&#x2028;", "&#x1F600;", "&#x1f600;", "&#x10FFFF;", "&#x110000;",
+        "&#xD800;", "&#xDFFF;", "&#xFFFFFFFFF;", "&#;", "&#x;", "&;", "&", "& ", "&&", "&amp", "&amp ;", "&ampx;", "&foo;", "&#65", "&#x41", "&#6 5;", "&#xG;", "&#-1;", "&amp;amp;", "&#38;amp;", "&#38;#38;", "&amp;#65;",
+        "a&amp;b", "&lt;script&gt;", "&Amp;", "&amp;&lt;", "&#65;&#66;", "&#x41;&#x42;", "&quot", "&nbsp", "&frac12;", "&sup2;", "&frac14;", "&frac34;", "&sup1;", "&sup3;", "&there4;", "&blk12;", "&blk14;", "&frac78;", "&frac12;2", "&sup2;&sup3;", "&frac12", "&frac1;", "&1;", "&a1b2;"] {
+        let want = jsstr(&format!("[{}]", ref_decode(e)));
+        let tpl = format!("<v a=\"[{e}]\" b='[{e}]' data-k=\"[{e}]\" u=\"[{e}]{{{{ n }}}}\">[{e}]</v><y>{{{{ n }}}}[{e}]</y>", e = e);
+        out.push(c12_case(format!("c12/entity/{}", e), tpl, vec![("r:a", want.clone(), false), ("r:b", want.clone(), false), ("d:k", want.clone(), false), ("r:u", want.clone(), false), ("t", format!("[{w}, {w}]", w = want), true)]));
+    }
+    // (C) unquoted attribute values
+    // (an unquoted value is not WXML; the parser's recovery reads identifier characters only, so only those are enumerated)
+    for val in ["abc", "a1", "1", "a-b_c.d", "A", "0x1f", "-", "_"] {
+        out.push(c12_case(format!("c12/unquoted/{}", val), format!("<v a={} b={}></v>", val, val), vec![("r:a", jsstr(val), false), ("r:b", jsstr(val), false)]));
+    }
+    // (D) every escape of string literals inside {{ }}, followed by critical successors
+    for esc in ["\\n", "\\r", "\\t", "\\b", "\\f", "\\v", "\\0", "\\x41", "\\x00", "\\x7f", "\\xff", "\\xFF", "\\u0041", "\\u0000", "\\u2028", "\\ufeff", "\\uFFFF", "\\'", "\\\\", "\\/", "\\a", "\\z", "\\-", "\\ ", "\\}", "\\{"] {
+        for su in ["", "0", "1", "8", "a", "f", "x", "u", "\\\\", "}", "{", "\\n", "\\x41"] {
+            if esc == "\\0" && su.starts_with(|c: char| c.is_ascii_digit()) { continue; } // `\0` + digit is a legacy octal escape in JavaScript: what it denotes is not settled by the text
+            if esc.ends_with('{') && su.starts_with('{') || esc.ends_with('}') && su.starts_with('}') { continue; }
+            let body = format!("[{}{}]", esc, su);
+            let want = jsstr(&ref_unescape(&body));
+            let tpl = format!("<w v=\"{{{{ '{b}' }}}}\" u=\"x{{{{ '{b}' }}}}y\">{{{{ '{b}' }}}}</w><z>{{{{ \"{b}\" }}}}|</z><k v=\"{{{{ {{ k: '{b}' }}.k }}}}\"/>", b = body);
+            out.push(c12_case(format!("c12/escape/{}", esc), tpl, vec![("r:v", format!("[{w}, {w}]", w = want), true), ("r:u", format!("\"x\" + {} + \"y\"", want), false), ("t", format!("[{w}, {w} + \"|\"]", w = want), true)]));
+        }
+    }
+}
+
 // ------------------------------------------------------------------------------------------------ C02 families
 fn pc(family: &'static str, files: Vec<(&str, String)>, scripts: Vec<(&str, &str)>, out: &mut Vec<Case>) {
     for dev in [false, true] {
@@ -690,21 +1105,19 @@ fn family_parse(out: &mut Vec<Case>) {
         pc("paths", vec![(&format!("d/{}/t", s), "<import src=\"./o\"/><include src=\"../q\"/><template is=\"k\"/>".to_string()), (&format!("d/{}/o", s), "<template name=\"k\">k</template>".to_string())], vec![(&format!("lib/{}", s), "exports.a = 1")], out);
         pc("names", vec![("p/n", format!("<view {e}=\"1\" data-{e}=\"2\" mark:{e}=\"3\" bind:{e}=\"h\" data:{e}=\"{{{{ a }}}}\" {e}=\"{{{{ b }}}}\" model:{e}=\"{{{{ c }}}}\" change:{e}=\"{{{{ d }}}}\" class:{e}=\"{{{{ f }}}}\" style:{e}=\"{{{{ g }}}}\" slot:{e} generic:{e}=\"x\" worklet:{e}=\"w\"/><{e}/><slot {e}=\"{{{{ a }}}}\"/>", e = s))], vec![], out);
     }
-    let quote_breaking = |s: &str| !known_mode() && s.contains(|c| matches!(c, '\'' | '\\' | '\r' | '\n')); // K4
     for s in ODD_STRINGS.iter().chain(["m", "$", "_", "new", "let", "static", "eval", "arguments", "if", "in", "do", "m#n", "a.b", "a-b", "1a", "", " m "].iter()) {
         let esc = s.replace('&', "&amp;").replace('<', "&lt;").replace('"', "&quot;");
         pc("wxs", vec![("p/x", format!("<wxs module=\"{}\" src=\"./lib\"/><view>{{{{ a }}}}</view>", esc))], vec![("p/lib", "exports.a = 1")], out);
-        if !quote_breaking(s) {
+        {
             pc("wxs", vec![("p/w", format!("<wxs module=\"{}\">exports.a = 1</wxs><view>{{{{ a }}}}</view>", esc))], vec![], out);
             pc("wxs", vec![(&format!("q/{}", s), "<wxs module=\"m\">exports.a = 1</wxs><view>{{ m.a }}</view>".to_string())], vec![], out);
         }
     }
     // script bodies that are valid JavaScript on their own
-    let ends_in_line_comment = |b: &str| !known_mode() && b.lines().last().map(|l| l.contains("//") && !l.trim_end().ends_with("*/")).unwrap_or(false); // K5
     for body in ["exports.a = 1", "exports.a = 1;", "exports.a = 1 // trailing comment", "// only a comment", "// a comment\nexports.a = 1", "/* c */", "", "\n", "exports.a = '</wxs>'.length", "'use strict'; exports.a = 1",
         "exports.a = function () { return 1 }", "var a = 1\nvar b = 2\n", "exports.a = /[/]/.test('/')", "exports.a = `\n${1}\n`", "if (true) { exports.a = 1 } else { exports.a = 2 }", "label: for (;;) { break label }",
-        "exports.a = 1 /* unterminated in a line comment // */", "exports.a = {}"] {
-        if ends_in_line_comment(body) { continue; }
+        "exports.a = 1 /* unterminated in a line comment // */", "exports.a = {}",
+        "exports.a = 1 // c\n", "exports.a = 1 // c\r\n", "exports.a = 1 //", "exports.a = 1 // c\u{2028}", "exports.a = 1 /* c */", "exports.a = 1 /* c */\n", "exports.a = 1 /* c\nd */ // e", "//\n//", "/**/", "exports.a = 1 // });", "exports.a = 1 /* }) */ //"] {
         let inline = body.replace("</wxs>", "<\\/wxs>");
         pc("scripts", vec![("p/i", format!("<wxs module=\"m\">{}</wxs><view>{{{{ m.a }}}}</view>", inline)), ("p/j", "<wxs module=\"n\" src=\"./s.wxs\"/><view>{{ n.a }}</view>".to_string())], vec![("p/s", body)], out);
     }
@@ -760,30 +1173,21 @@ pub const KNOWN: &[&str] = &[
     r#"{"k":"eval","src":"<div v=\"{{ c() + (c() ? 10 : 20) }}\"/>","checks":[["r:v","($call($d[\"c\"],[]) + ($call($d[\"c\"],[]) ? (10) : (20)))",false]],"env":{"c":{"$":"fn","k":"count"}}}"#,
     r#"{"k":"eval","src":"<div v=\"{{ [a && o[c()], c()] }}\"/>","checks":[["r:v","[($d[\"a\"] && $get($d[\"o\"],$call($d[\"c\"],[]))),$call($d[\"c\"],[])]",false]],"env":{"a":0,"o":0,"c":{"$":"fn","k":"count"}}}"#,
     r#"{"k":"eval","src":"<div v=\"{{ a && (a instanceof o ? 1 : 2) }}\"/>","checks":[["r:v","($d[\"a\"] && (($d[\"a\"] instanceof $d[\"o\"]) ? (1) : (2)))",false]],"env":{"a":0,"o":0}}"#,
-    // K3 (C03) wx:if / wx:elif whose expression is a top-level `??`: emitted as `c=t!=null?t:D.b?1:0` without
-    //    parentheses, so a non-nullish left operand selects the else branch.  Guard: family `pos` leaves the wx:if
-    //    position out for trees whose root is `??`.
-    r#"{"k":"eval","src":"<i wx:if=\"{{ a ?? b }}\">T</i><i wx:else>F</i>","checks":[["t","[($d[\"a\"] ?? $d[\"b\"]) ? \u0027T\u0027 : \u0027F\u0027]",true]],"env":{"a":2,"b":0}}"#,
-    // K4 (C02) inline <wxs>: template path and module name are pasted unescaped into D('path#module',..).
-    //    Guard: inline-script groups whose path or module name contains ' \ CR or LF are left out.
-    r#"{"k":"parse","files":[["q/\u0027","<wxs module=\"m\">exports.a = 1</wxs>"]],"scripts":[],"dev":false}"#,
-    r#"{"k":"parse","files":[["p","<wxs module=\"a\\\">exports.a = 1</wxs>"]],"scripts":[],"dev":false}"#,
-    // K5 (C02) a script body (inline or add_script) whose last line ends in a `//` comment swallows the closing `})`.
-    //    Guard: such bodies are left out of family `scripts`.
-    r#"{"k":"parse","files":[],"scripts":[["s","exports.a = 1 // c"]],"dev":false}"#,
-    r#"{"k":"parse","files":[["p","<wxs module=\"m\">exports.a = 1 // c</wxs>"]],"scripts":[],"dev":false}"#,
 ];
 
-const BOUND: &str = "C03: all 1680 operator trees of depth <= 2 (6 unary, 23 binary, ?:; every operator pair x operand position) x minimal / full parentheses x pool^vars (16 edge values for <= 2 vars, 12 for 3, 600 fixed-seed LCG tuples over the 16 for 4-5 vars) + 35 trees in 10 binding positions + 62 number literals x 4 forms + 30 string literals x 3 forms + 49 array/object literal trees x 2 + 65 member/index/call chains x 2 (pool 19^vars) + 12 scope templates; every environment: creation, binding-map updaters, whole-data update. C02: 945 directed groups (normal and dev mode; identifiers up to 2400 per scope and 190000 siblings, odd strings/names/paths/module names, script bodies, numbers, sign sequences, nesting, ill-formed input) x every artefact x 2-3 wrappings x sloppy/strict. Excluded KNOWN classes K1-K5 (see KNOWN)";
+const BOUND: &str = "C03: all 1680 operator trees of depth <= 2 (6 unary, 23 binary, ?:; every operator pair x operand position) x minimal / full parentheses x pool^vars (16 edge values for <= 2 vars, 12 for 3, 600 fixed-seed LCG tuples over the 16 for 4-5 vars) + 35 trees in 10 binding positions + 54 wx:if/elif/elif/else chains (?? and ?: roots in every branch position) x element/block + 62 number literals x 4 forms + 30 string literals x 3 forms + 49 array/object literal trees x 2 + 65 member/index/call chains x 2 (pool 19^vars) + 12 scope templates; every environment: creation, binding-map updaters, whole-data update. C05: 27 scope shapes (nested wx:for default/renamed/colliding, slot: value refs on elements/blocks/nested/aliased/duplicated, wxs modules, template-name bodies, siblings after scopes) x 28 expression forms with every name under test at every position. C12: 59 critical characters x 15 successors x raw/decimal/hex spelling in 11 static positions, 103 character-reference forms in 6 positions, 8 unquoted values, 26 escapes x 13 successors in string literals. C02: 1027 directed groups (normal and dev mode; identifiers up to 2400 per scope and 190000 siblings, odd strings/names/paths/module names incl. quotes, backslashes, CR/LF, U+2028, script bodies incl. trailing // and /* */ comments, numbers, sign sequences, nesting, ill-formed input) x every artefact x 2-3 wrappings x sloppy/strict. Excluded KNOWN classes K1, K2 (see KNOWN)";
 
 fn all_cases() -> Vec<Case> {
     let mut v = vec![];
     family_ops(&mut v);
     family_pos(&mut v);
+    family_wxif(&mut v);
     family_num_str(&mut v);
     family_lit(&mut v);
     family_mem(&mut v);
     family_scope(&mut v);
+    family_c05(&mut v);
+    family_c12(&mut v);
     if known_mode() {
         family_hoist(&mut v);
         for k in KNOWN { if let Some(c) = decode_input(k) { v.push(c); } }
@@ -806,6 +1210,7 @@ fn encode_eval(c: &EvalCase, tuple: &[usize]) -> String {
     let mut o = vec![("k", js("eval")), ("path", js(&c.path)), ("src", js(&c.src)), ("checks", checks_json(c)), ("env", env)];
     if !c.name.is_empty() { o.push(("name", js(&c.name))); }
     if !c.guards.is_empty() { o.push(("guards", J::Arr(c.guards.iter().map(|g| js(g)).collect()))); }
+    if c.any_diag { o.push(("anydiag", J::Bool(true))); }
     jo(o).text()
 }
 fn encode_parse(c: &ParseCase) -> String {
@@ -832,6 +1237,7 @@ fn decode_input(input: &str) -> Option<Case> {
                 pool: env.iter().map(|(_, v)| v.clone()).collect(),
                 pick: Pick::Tuples(vec![(0..env.len()).collect()]),
                 flat: None,
+                any_diag: j.get("anydiag").map(|d| d.truthy()).unwrap_or(false),
             }))
         }
         "parse" => Some(Case::Parse(ParseCase {
@@ -847,6 +1253,10 @@ fn decode_input(input: &str) -> Option<Case> {
     }
 }
 
+/// the property a case belongs to (family, or the path prefix of a replayed witness)
+fn prop_of(c: &EvalCase) -> &'static str {
+    if c.family == "c05" || c.path.starts_with("c05/") { "C05" } else if c.family == "c12" || c.path.starts_with("c12/") { "C12" } else { "C03" }
+}
 enum Compiled { Line(String), Early(Outcome), Dup }
 fn found(input: String, observed: String, expected: String) -> Outcome {
     Outcome { found: true, input, observed, expected, evaluations: 0, bound: BOUND.into() }
@@ -869,7 +1279,7 @@ fn compile(id: usize, case: &Case, seen: &mut std::collections::HashSet<String>)
                 Ok(x) => x,
                 Err(_) => return Compiled::Early(found(input, "panic while compiling".into(), "no panic".into())),
             };
-            if !diag.is_empty() {
+            if !diag.is_empty() && !c.any_diag {
                 return Compiled::Early(found(input, format!("the parser rejects a supported expression: {}", diag), "accepted without Error / Fatal diagnostics".into()));
             }
             let code = match code { Ok(c) => c, Err(e) => return Compiled::Early(found(input, format!("get_tmpl_gen_object failed: {}", e), "code".into())) };
@@ -948,8 +1358,8 @@ fn judge(case: &Case, r: &J) -> (Option<Outcome>, u64) {
                 let g = |k: &str| m.get(k).and_then(|x| x.str()).unwrap_or("?").to_string();
                 return (Some(found(
                     encode_eval(c, &tuple),
-                    format!("[C03 {}] {} with data {}: {} observation {} = {}", c.family, clip(&c.src), g("env"), g("phase"), g("sel"), clip(&g("got"))),
-                    format!("{} (JavaScript value of the fully parenthesised tree)", clip(&g("want"))),
+                    format!("[{} {}] {} with data {}: {} observation {} = {}", prop_of(c), c.family, clip(&c.src), g("env"), g("phase"), g("sel"), clip(&g("got"))),
+                    format!("{} ({})", clip(&g("want")), match prop_of(c) { "C05" => "reference resolver: innermost enclosing scope that introduces the name, else data field", "C12" => "reference decoder: the code points the source denotes", _ => "JavaScript value of the fully parenthesised tree" }),
                 )), n);
             }
             (None, n)
